@@ -204,6 +204,9 @@ class ElasticsearchQueryBuilder(TreeVisitor):
             'hon OR Mon'
         """
         node_str = str(binary_operation)
+        if len(binary_operation.children) < 2:
+            # an operation with a single operand has no operator to show
+            return node_str
         child_str_1 = str(binary_operation.children[0])
         child_str_2 = str(binary_operation.children[1])
         middle_length = len(node_str) - len(child_str_1) - len(child_str_2)
